@@ -80,6 +80,11 @@ func (e *GenEnv) GenField(t *rapid.T) Field {
 		f.Len = VarLen
 	default:
 		f.Len = uint16(rapid.OneOf(rapid.IntRange(0, 8), rapid.IntRange(0, 40)).Draw(t, "flen"))
+		if rapid.IntRange(0, 23).Draw(t, "longfield") == 0 {
+			// long fixed-length octet/string fields (packet sections, descriptions): lengths around the 8-, 12-
+			// and 13-bit marks
+			f.Len = uint16(rapid.SampledFrom([]int{255, 256, 257, 1000, 4095, 4096, 4097, 5000, 8191, 8192, 9000}).Draw(t, "longlen"))
+		}
 	}
 	return f
 }
